@@ -25,7 +25,7 @@ def gen(seed, rev=None, layout=None, scheme=None, nsteps=None, numrec=None, peri
         kills=True, subgrid=None, scalars=True, vertadv=None, land=True, files=None, age=True, speed=None,
         late_release=True, pvars=True):
     r = np.random.RandomState(seed)
-    imax, jmax = 12, 10
+    imax, jmax = [(12, 10), (9, 13), (11, 11), (10, 12)][seed % 4]     # wide, tall, square
     N = int(r.choice([2, 4]))
     h = r.choice([16.0, 32.0, 64.0], size=(jmax, imax))
     mask = np.ones((jmax, imax))
